@@ -448,3 +448,97 @@ func (b *builder) runPkHex(c *vrun.Ctx, rc rawCase) error {
 	c.Distinct(fmt.Sprintf("pkhex/%d/%t/%d/%t/%t/%t", cs.S.NChars, cs.S.HexOK, cs.S.Prefix, cs.S.OnCurve, cs.S.Parity, cs.Upper))
 	return nil
 }
+
+// runMixed builds the mixed-case strings of one class: a valid address in one
+// case with one or all occurrences of a letter (the first or the last letter of
+// the alphabet, or another) of the prefix or of the data part in the other case.
+func (b *builder) runMixed(c *vrun.Ctx, rc rawCase) error {
+	var cs struct {
+		Base, Letter, Where, Count string
+		Ver                        int
+	}
+	if err := rc.decode(&cs, nil); err != nil {
+		return err
+	}
+	pick := func(ch byte) bool { // lower-case letter of the wanted class
+		switch cs.Letter {
+		case "a":
+			return ch == 'a'
+		case "z":
+			return ch == 'z'
+		}
+		return ch > 'a' && ch < 'z'
+	}
+	built := 0
+	for _, hrp := range b.t.w.regHrps {
+		if !b.t.w.implDecodable[hrp] {
+			continue
+		}
+		for try := 0; try < 40 && built < 12; try++ {
+			plen := 20
+			if cs.Ver == 1 {
+				plen = 32
+			}
+			if len(hrp)+8+(8*plen+4)/5 > 90 {
+				break
+			}
+			conv, _ := bech32.ConvertBits(randBytes(b.rng, plen), 8, 5, true)
+			data := append([]byte{byte(cs.Ver)}, conv...)
+			var s string
+			var err error
+			if cs.Ver == 0 {
+				s, err = bech32.Encode(hrp, data)
+			} else {
+				s, err = bech32.EncodeM(hrp, data)
+			}
+			if err != nil {
+				return err
+			}
+			lo, hi := 0, len(hrp)
+			if cs.Where == "data" {
+				lo, hi = len(hrp)+1, len(s)
+			}
+			var pos []int
+			for i := lo; i < hi; i++ {
+				if pick(s[i]) {
+					pos = append(pos, i)
+				}
+			}
+			if len(pos) == 0 {
+				continue
+			}
+			if cs.Count == "one" {
+				pos = []int{pos[b.rng.Intn(len(pos))]}
+			}
+			bs := []byte(s)
+			if cs.Base == "upper" {
+				bs = []byte(strings.ToUpper(s))
+			}
+			for _, i := range pos {
+				bs[i] ^= 0x20
+			}
+			// still mixed? (the string needs a letter left in the base case)
+			m := string(bs)
+			if m == strings.ToLower(m) || m == strings.ToUpper(m) {
+				continue
+			}
+			a, _, err := b.t.checkDecode(c, m, b.t.w.names[b.rng.Intn(len(b.t.w.names))], "mixed-case",
+				fmt.Sprintf("%s-case address with %s occurrence(s) of a letter of class %q of the %s in the other case", cs.Base, cs.Count, cs.Letter, cs.Where), rc.replay())
+			if err != nil {
+				return err
+			}
+			c.AddEval(1)
+			if a.form != "bech" || a.bech.Case != "mixed" {
+				return fmt.Errorf("binder built %q for a mixed-case class, abstraction %v", m, a.describe())
+			}
+			built++
+		}
+	}
+	if built > 0 {
+		c.AddTraces(1)
+		c.Distinct(fmt.Sprintf("mixed/%s/%s/%s/%s/v%d", cs.Base, cs.Letter, cs.Where, cs.Count, cs.Ver))
+	} else {
+		c.AddExtra("mixed_classes_without_a_string", 1)
+	}
+	return nil
+}
